@@ -268,6 +268,10 @@ const DEFAULT: Opt = Opt { no_lb: false, ov: -1 };
 struct C05 {
     fonts: Vec<String>,
     repo: String,
+    /// the last `tab` request and its reply (several paths of one case share the program)
+    tab_cache: Option<(String, String)>,
+    time_by_stream: std::collections::BTreeMap<String, (u64, f64)>,
+    thorough: bool,
 }
 
 struct TabReply {
@@ -357,7 +361,15 @@ impl C05 {
             out.tag(f);
         }
         // ---- the table: which pairs resolve, loop reports ----
-        let tab = parse_tab(&drv.ask(&format!("tab {penc}")));
+        let reply = match &self.tab_cache {
+            Some((k, v)) if k == penc => v.clone(),
+            _ => {
+                let v = drv.ask(&format!("tab {penc}"));
+                self.tab_cache = Some((penc.to_string(), v.clone()));
+                v
+            }
+        };
+        let tab = parse_tab(&reply);
         // A redirect word that a SKIP chain runs into is outside the property's quantifier
         // (TeX never executes it); before fix C05-a the compiler executed it as a "phantom"
         // instruction. Every comparison on such a program carries the marker.
@@ -525,11 +537,11 @@ impl C05 {
         if verdicts.len() != words.len() {
             panic!("driver reply malformed ({} verdicts for {} words): {}", verdicts.len(), words.len(), trunc(&reply));
         }
-        let mut reported = [false; 4];
+        let mut reported = [false; 5];
         for (k, v) in verdicts.iter().enumerate() {
             let code: i64 = v.parse().unwrap_or_else(|_| panic!("bad verdict {v}"));
-            let (m, g, s) = (code / 100, code / 10 % 10, code % 10);
-            if m == 1 && (g == 1 || !acyclic) && s == 1 {
+            let (m, g, s, t) = (code / 1000, code / 100 % 10, code / 10 % 10, code % 10);
+            if m == 1 && (g == 1 || !acyclic) && s == 1 && (t == 1 || !acyclic) {
                 continue;
             }
             let w = &words[k];
@@ -562,6 +574,17 @@ impl C05 {
             if g == 2 && acyclic && !reported[2] {
                 reported[2] = true;
                 out.fail(Kind::ModelVsSpec, stream, format!("{what}: interp out of fuel on an acyclic program"), format!("word {:?}", word_string(w)));
+            }
+            // which nodes are ligature nodes: TeX types exactly the inserted characters so
+            if t == 0 && g != 0 && !reported[4] {
+                reported[4] = true;
+                let d = drv.ask(&detail());
+                out.fail(
+                    Kind::ImplVsSpec,
+                    stream,
+                    format!("{what}: character / ligature node types differ from direct interpretation{}{ph}", if acyclic { "" } else { " (program has loops)" }),
+                    format!("word {:?}\nimpl items: {}\ndriver (mgst | model items | spec glyphs): {d}", word_string(w), join(&real[k])),
+                );
             }
             if s != 1 && !reported[3] {
                 reported[3] = true;
@@ -609,6 +632,8 @@ impl C05 {
                 return;
             }
         };
+        let mut all_words: Vec<Vec<i64>> = vec![];
+        let mut all_real: Vec<Vec<i64>> = vec![];
         for text in texts {
             let mut list: Vec<ds::Horizontal> = vec![];
             if let Err(p) = caught(|| tp.add_text(text, &mut list)) {
@@ -617,9 +642,14 @@ impl C05 {
             }
             match cut_segments(&list, text, 0, out) {
                 Err((sig, d)) => out.fail(Kind::ImplVsSpec, stream, sig, d),
-                Ok((words, real)) => self.judge(stream, "text", penc, &words, &real, acyclic, ph, DEFAULT, drv, out),
+                Ok((words, real)) => {
+                    all_words.extend(words);
+                    all_real.extend(real);
+                }
             }
         }
+        // one request for all texts (the driver rebuilds the font's table per request)
+        self.judge(stream, "text", penc, &all_words, &all_real, acyclic, ph, DEFAULT, drv, out);
         out.tags.sort();
         out.tags.dedup();
     }
@@ -738,6 +768,81 @@ fn cut_segments(
     Ok((words, real))
 }
 
+/// S's own reading of a TFM file's lig/kern data (TFtoPL.2014 par.8-13, TeX82 par.540-545),
+/// independent of the crate's deserializer: the `nl` instruction words, the boundary char
+/// (first word, skip_byte 255), the left-boundary program (last word, skip_byte 255), the
+/// kerns, and the entry point of every character whose tag is 1 (through a redirect word if
+/// its skip_byte exceeds 128). `None` if the lengths in the preamble do not add up.
+fn decode_tfm_ligkern(b: &[u8]) -> Option<Prog> {
+    if b.len() < 24 {
+        return None;
+    }
+    let h = |i: usize| u16::from_be_bytes([b[2 * i], b[2 * i + 1]]) as usize;
+    let (lf, lh, bc, ec, nw, nh, nd, ni, nl, nk, ne, np) = (h(0), h(1), h(2), h(3), h(4), h(5), h(6), h(7), h(8), h(9), h(10), h(11));
+    let nc = if bc > ec { 0 } else { ec - bc + 1 };
+    if lf * 4 != b.len() || lf != 6 + lh + nc + nw + nh + nd + ni + nl + nk + ne + np {
+        return None;
+    }
+    let ci = 24 + 4 * lh;
+    let lk = ci + 4 * (nc + nw + nh + nd + ni);
+    let kn = lk + 4 * nl;
+    let word = |at: usize| [b[at], b[at + 1], b[at + 2], b[at + 3]];
+    let mut p = Prog { rb: -1, lb: -1, entries: vec![], kerns: vec![], instrs: vec![] };
+    for i in 0..nl {
+        let [skip, next_char, op, rem] = word(lk + 4 * i);
+        let (skip, r, op, rem) = (skip as i64, next_char as i64, op as i64, rem as i64);
+        if skip > 128 {
+            p.instrs.push([-1, r, 3, op * 256 + rem, 1]);
+            continue;
+        }
+        let next = if skip < 128 { skip } else { -1 };
+        if op >= 128 {
+            p.instrs.push([next, r, 1, (op - 128) * 256 + rem, 0]);
+        } else {
+            let form = match (op / 2 % 2, op % 2, op / 4) {
+                (1, 1, 0) => 0, // |=:|
+                (1, 1, 1) => 1, // |=:|>
+                (1, 1, 2) => 2, // |=:|>>
+                (0, 1, 0) => 3, // =:|
+                (0, 1, 1) => 4, // =:|>
+                (1, 0, 0) => 5, // |=:
+                (1, 0, 1) => 6, // |=:>
+                _ => 7,         // =: (and nonstandard codes, TFtoPL par.77)
+            };
+            p.instrs.push([next, r, 2, rem, form]);
+        }
+    }
+    if nl > 0 {
+        let [skip, c, _, _] = word(lk);
+        if skip == 255 {
+            p.rb = c as i64;
+        }
+        let [skip, _, op, rem] = word(lk + 4 * (nl - 1));
+        if skip == 255 {
+            p.lb = op as i64 * 256 + rem as i64;
+        }
+    }
+    for i in 0..nk {
+        p.kerns.push(i32::from_be_bytes(word(kn + 4 * i)) as i64);
+    }
+    for i in 0..nc {
+        let [_, _, t, rem] = word(ci + 4 * i);
+        if t % 4 == 1 {
+            let e = rem as usize;
+            if e >= nl {
+                continue;
+            }
+            let [skip, _, op, r2] = word(lk + 4 * e);
+            let e = if skip > 128 { op as usize * 256 + r2 as usize } else { e };
+            if e < nl {
+                p.entries.push(((bc + i) as i64, e as i64));
+            }
+        }
+    }
+    p.entries.sort();
+    Some(p)
+}
+
 fn trunc(s: &str) -> String {
     s.chars().take(300).collect()
 }
@@ -852,7 +957,7 @@ fn random_words(rng: &mut Rng, p: &Prog, n: usize, maxlen: u64) -> Vec<Vec<i64>>
             (0..len)
                 .map(|_| match rng.below(40) {
                     0 => 122,      // a letter outside the program
-                    1 => 0x131,    // a char that is not a u8
+                    1 => 0x100 + *rng.pick(&alpha), // not a u8, but its low byte is a program character
                     _ => *rng.pick(&alpha),
                 })
                 .collect()
@@ -958,6 +1063,7 @@ impl Property for C05 {
         v
     }
     fn generate(&mut self, ctx: &Ctx, rng: &mut Rng) -> Vec<String> {
+        self.thorough = ctx.thorough;
         let mut v = vec![];
         let rules = small_rules();
         let abc = vec![A, A + 1, A + 2];
@@ -984,7 +1090,7 @@ impl Property for C05 {
                 }
             }
         }
-        let (n2, n3, nr, nk) = if ctx.thorough { (6_000, 40_000, 60_000, 10_000) } else { (1_500, 2_500, 6_000, 1_500) };
+        let (n2, n3, nr, nk) = if ctx.thorough { (6_000, 30_000, 48_000, 5_000) } else { (1_500, 1_800, 5_000, 1_200) };
         for _ in 0..n2 {
             let a = *r2.pick(&rules);
             let b = *r2.pick(&rules);
@@ -1192,6 +1298,245 @@ impl Property for C05 {
     }
 
     fn run_case(&mut self, case: &str, drv: &mut Driver) -> CaseOutcome {
+        let t0 = std::time::Instant::now();
+        let cmd = case.split(' ').next().unwrap_or("").to_string();
+        let out = self.run_case_inner(case, drv);
+        let e = self.time_by_stream.entry(cmd).or_insert((0, 0.0));
+        e.0 += 1;
+        e.1 += t0.elapsed().as_secs_f64();
+        out
+    }
+
+    fn extra_evidence(&self) -> Option<String> {
+        Some(format!(
+            "\"seconds_by_case_kind\": {{{}}}",
+            self.time_by_stream.iter().map(|(k, (n, t))| format!("\"{k}\": [{n}, {t:.1}]")).collect::<Vec<_>>().join(", ")
+        ))
+    }
+
+    fn shrink(&self, case: &str) -> Vec<String> {
+        let (cmd, rest) = case.split_once(' ').unwrap_or((case, ""));
+        let mut c = vec![];
+        if cmd == "m" {
+            let parts: Vec<&str> = rest.split('|').map(str::trim).collect();
+            let nf: usize = parts[0].parse().unwrap_or(0);
+            let ops = &parts[1 + nf..];
+            // drop halves of the script, then single ops
+            let mk = |keep: &dyn Fn(usize) -> bool| {
+                let mut p: Vec<&str> = parts[..1 + nf].to_vec();
+                p.extend(ops.iter().enumerate().filter(|(i, _)| keep(*i)).map(|(_, o)| *o));
+                format!("m {}", p.join(" | "))
+            };
+            if ops.len() > 1 {
+                let h = ops.len() / 2;
+                c.push(mk(&|i| i < h));
+                c.push(mk(&|i| i >= h));
+                for k in 0..ops.len() {
+                    c.push(mk(&|i| i != k));
+                }
+            }
+            // shorten texts to single words
+            for (k, op) in ops.iter().enumerate() {
+                let v = parse_i64s(op);
+                if v.first() == Some(&2) {
+                    let text = &v[2..2 + v[1] as usize];
+                    let words: Vec<&[i64]> = text.split(|c| *c == 32).filter(|w| !w.is_empty()).collect();
+                    if words.len() > 1 {
+                        for w in words {
+                            let mut p: Vec<String> = parts.iter().map(|x| x.to_string()).collect();
+                            p[1 + nf + k] = format!("2 {} {}", w.len(), join(w));
+                            c.push(format!("m {}", p.join(" | ")));
+                        }
+                    }
+                }
+            }
+            return c;
+        }
+        if cmd == "o" {
+            let mut it = rest.splitn(3, ' ');
+            let (a, b, r) = (it.next().unwrap_or("0"), it.next().unwrap_or("-1"), it.next().unwrap_or(""));
+            return self
+                .shrink(&format!("p {r}"))
+                .into_iter()
+                .map(|x| format!("o {a} {b} {}", &x[2..]))
+                .collect();
+        }
+        if cmd == "t" {
+            let parts: Vec<&str> = rest.split('|').collect();
+            let prog = Prog::dec(&parse_i64s(parts[0]));
+            let tv = parse_i64s(parts[1]);
+            let text = tv[1..1 + tv[0] as usize].to_vec();
+            let mk = |p: &Prog, t: &[i64]| format!("t {} | {} {}", join(&p.enc()), t.len(), join(t));
+            let words: Vec<Vec<i64>> = text.split(|c| *c == 32).filter(|w| !w.is_empty()).map(|w| w.to_vec()).collect();
+            if words.len() > 1 {
+                for w in &words {
+                    c.push(mk(&prog, w));
+                }
+            }
+            for i in 0..text.len() {
+                let mut t = text.clone();
+                t.remove(i);
+                if !t.is_empty() {
+                    c.push(mk(&prog, &t));
+                }
+            }
+            for i in 0..prog.entries.len() {
+                let mut q = prog.clone();
+                q.entries.remove(i);
+                c.push(mk(&q, &text));
+            }
+            if prog.lb >= 0 {
+                let mut q = prog.clone();
+                q.lb = -1;
+                c.push(mk(&q, &text));
+            }
+            if prog.rb >= 0 {
+                let mut q = prog.clone();
+                q.rb = -1;
+                c.push(mk(&q, &text));
+            }
+            for i in 0..prog.instrs.len() {
+                if prog.instrs[i][1..] != [255, 0, 0, 0] {
+                    let mut q = prog.clone();
+                    q.instrs[i] = [q.instrs[i][0], 255, 0, 0, 0];
+                    c.push(mk(&q, &text));
+                }
+            }
+            return c;
+        }
+        if cmd != "p" && cmd != "k" && cmd != "n" {
+            return c;
+        }
+        let parts: Vec<&str> = rest.split('|').collect();
+        let prog = Prog::dec(&parse_i64s(parts[0]));
+        let ws = WordSet::dec(&parts[1..]);
+        let words = ws.words();
+        // one word at a time, then shorter words
+        if words.len() > 1 {
+            for w in &words {
+                c.push(case_of(cmd, &prog, &WordSet::List(vec![w.clone()])));
+            }
+        } else if let Some(w) = words.first() {
+            for i in 0..w.len() {
+                let mut x = w.clone();
+                x.remove(i);
+                if !x.is_empty() {
+                    c.push(case_of(cmd, &prog, &WordSet::List(vec![x])));
+                }
+            }
+        }
+        let ws1 = WordSet::List(words.clone());
+        // drop an entry point / the boundary entry / the boundary char
+        for i in 0..prog.entries.len() {
+            let mut q = prog.clone();
+            q.entries.remove(i);
+            c.push(case_of(cmd, &q, &ws1));
+        }
+        if prog.lb >= 0 {
+            let mut q = prog.clone();
+            q.lb = -1;
+            c.push(case_of(cmd, &q, &ws1));
+        }
+        if prog.rb >= 0 {
+            let mut q = prog.clone();
+            q.rb = -1;
+            c.push(case_of(cmd, &q, &ws1));
+        }
+        // neutralise an instruction (keeps indices stable), drop a trailing one
+        for i in 0..prog.instrs.len() {
+            if prog.instrs[i][1..] != [255, 0, 0, 0] {
+                let mut q = prog.clone();
+                q.instrs[i] = [q.instrs[i][0], 255, 0, 0, 0];
+                c.push(case_of(cmd, &q, &ws1));
+            }
+        }
+        if prog.instrs.len() > 1 {
+            let mut q = prog.clone();
+            q.instrs.pop();
+            c.push(case_of(cmd, &q, &ws1));
+        }
+        c
+    }
+}
+
+fn bucket(n: usize) -> &'static str {
+    match n {
+        0 => "0",
+        1..=99 => "1-99",
+        100..=999 => "100-999",
+        _ => "1000+",
+    }
+}
+
+impl C05 {
+    /// A corpus font the way the `f` stream loads it: real bytes, `File::deserialize`,
+    /// `compile_from_tfm_file`; the program as Lean sees it (entry points unpacked by the real
+    /// code, kerns scaled with the font's design size).
+    #[allow(clippy::type_complexity)]
+    fn load_font_file(&self, rel: &str, out: &mut CaseOutcome) -> Option<(tfm::File, CompiledProgram, Vec<tfm::ligkern::InfiniteLoopError>, Prog)> {
+        let path = format!("{}/{}", self.repo(), rel);
+        let bytes = std::fs::read(&path).unwrap_or_else(|e| panic!("cannot read {path}: {e}"));
+        let r = caught(|| {
+            let (f, _) = tfm::File::deserialize(&bytes);
+            f.ok().map(|mut f| {
+                let (cp, errs) = CompiledProgram::compile_from_tfm_file(&mut f);
+                (f, cp, errs)
+            })
+        });
+        match r {
+            Err(p) => {
+                out.fail(Kind::ImplPanic, "font", format!("panic {}", strip_msg(&p)), format!("{rel}: {p}"));
+                None
+            }
+            Ok(None) => {
+                out.tag("font:does-not-deserialize");
+                None
+            }
+            Ok(Some((mut f, cp, errs))) => {
+                let entries: HashMap<Char, u16> = f
+                    .lig_kern_entrypoints()
+                    .into_iter()
+                    .filter_map(|(c, e)| f.lig_kern_program.unpack_entrypoint(e).ok().map(|e| (c, e)))
+                    .collect();
+                let mut q = Prog::from_real(&f.lig_kern_program, &entries, &f.kerns);
+                // the program as the crate read it must be the program in the file's raw words
+                match decode_tfm_ligkern(&bytes) {
+                    Some(d) => {
+                        out.tag("font:raw-lig/kern-words-decoded-independently");
+                        if d != q {
+                            let what = if d.instrs != q.instrs {
+                                let i = d.instrs.iter().zip(&q.instrs).position(|(a, b)| a != b).unwrap_or(d.instrs.len().min(q.instrs.len()));
+                                format!("instruction {i}: raw {:?}, read {:?}", d.instrs.get(i), q.instrs.get(i))
+                            } else if d.rb != q.rb || d.lb != q.lb {
+                                format!("boundary char / left-boundary entry: raw {} {}, read {} {}", d.rb, d.lb, q.rb, q.lb)
+                            } else if d.kerns != q.kerns {
+                                "kerns differ".to_string()
+                            } else {
+                                format!("entry points: raw {:?}, read {:?}", d.entries, q.entries)
+                            };
+                            out.fail(Kind::ImplVsSpec, "font", "font: lig/kern program read from the TFM file differs from its raw words", format!("{rel}: {what}"));
+                            // M and S are evaluated on the raw program
+                            q = d;
+                        }
+                    }
+                    None => out.tag("font:preamble-lengths-inconsistent(raw decoding skipped)"),
+                }
+                let ds = f.header.design_size;
+                let ok = caught(|| {
+                    for k in q.kerns.iter_mut() {
+                        *k = FixWord(*k as i32).to_scaled(ds).0 as i64;
+                    }
+                });
+                if ok.is_err() {
+                    out.tag("skipped:to_scaled-panic(C17)");
+                    return None;
+                }
+                Some((f, cp, errs, q))
+            }
+        }
+    }
+
+    fn run_case_inner(&mut self, case: &str, drv: &mut Driver) -> CaseOutcome {
         let mut out = CaseOutcome::default();
         let (cmd, rest) = case.split_once(' ').unwrap_or((case, ""));
         match cmd {
@@ -1267,6 +1612,39 @@ impl Property for C05 {
                                     self.compare("pack", &prog, &cp, &errs, &words, drv, &mut out, &join(&e), marker, opt);
                                 }
                                 Err(_) => out.tag("skipped:to_scaled-panic(C17)"),
+                            }
+                        }
+                    }
+                    // The property-list paths: the same program in a `pl::File`
+                    // (`compile_from_pl_file`), and that file converted to a TFM file, written to
+                    // bytes, read back and compiled (`From<pl::File>`: pack_entrypoints +
+                    // unpack_kerns; `serialize`; `deserialize`; `compile_from_tfm_file`).
+                    let r = caught(|| {
+                        let mut pl = tfm::pl::File::default();
+                        pl.header.design_size = ds;
+                        for c in entries.keys() {
+                            pl.char_dimens.insert(*c, tfm::pl::CharDimensions { width: Some(FixWord::ONE), ..Default::default() });
+                        }
+                        pl.replace_lig_kern_program(real.clone(), entries.clone());
+                        let a = CompiledProgram::compile_from_pl_file(&pl);
+                        let tf: tfm::File = pl.into();
+                        let bytes = tf.serialize();
+                        let b = tfm::File::deserialize(&bytes).0.ok().map(|mut f| CompiledProgram::compile_from_tfm_file(&mut f));
+                        (a, b)
+                    });
+                    match r {
+                        Err(p) => out.fail(Kind::ImplPanic, "pl", format!("panic {}", strip_msg(&p)), format!("the PL path panicked: {p}")),
+                        Ok(((cp, errs), b)) => {
+                            if let Ok(e) = prog.enc_scaled(ds) {
+                                let few = &words[..words.len().min(4)];
+                                self.compare("pl", &prog, &cp, &errs, few, drv, &mut out, &join(&e), "", opt);
+                                match b {
+                                    Some((cp, errs)) => {
+                                        out.tag("pack:pl-to-tfm-bytes-and-back");
+                                        self.compare("pl-tfm", &prog, &cp, &errs, few, drv, &mut out, &join(&e), "", opt);
+                                    }
+                                    None => out.tag("pack:pl-to-tfm-bytes-do-not-deserialize"),
+                                }
                             }
                         }
                     }
@@ -1463,46 +1841,17 @@ impl Property for C05 {
             }
             "f" => {
                 out.tag("stream:corpus-font");
-                let path = format!("{}/{}", self.repo(), rest.trim());
-                let bytes = std::fs::read(&path).unwrap_or_else(|e| panic!("cannot read {path}: {e}"));
-                let r = caught(|| {
-                    let (f, _) = tfm::File::deserialize(&bytes);
-                    f.ok().map(|mut f| {
-                        let (cp, errs) = CompiledProgram::compile_from_tfm_file(&mut f);
-                        (f, cp, errs)
-                    })
-                });
-                match r {
-                    Err(p) => out.fail(Kind::ImplPanic, "font", format!("panic {}", strip_msg(&p)), format!("{rest}: {p}")),
-                    Ok(None) => out.tag("font:does-not-deserialize"),
-                    Ok(Some((mut f, cp, errs))) => {
-                        // describe the program to Lean: unpack entry points with the real code
-                        let entries: HashMap<Char, u16> = f
-                            .lig_kern_entrypoints()
-                            .into_iter()
-                            .filter_map(|(c, e)| f.lig_kern_program.unpack_entrypoint(e).ok().map(|e| (c, e)))
-                            .collect();
-                        let prog = Prog::from_real(&f.lig_kern_program, &entries, &f.kerns);
+                match self.load_font_file(rest.trim(), &mut out) {
+                    None => {}
+                    Some((f, cp, errs, q)) => {
                         if f.header.design_size != design_size() {
                             out.tag("font:design-size-not-10pt");
-                        }
-                        // kerns must be scaled with the font's own design size
-                        let ds = f.header.design_size;
-                        let mut q = prog.clone();
-                        let ok = caught(|| {
-                            for k in q.kerns.iter_mut() {
-                                *k = FixWord(*k as i32).to_scaled(ds).0 as i64;
-                            }
-                        });
-                        if ok.is_err() {
-                            out.tag("skipped:to_scaled-panic(C17)");
-                            return out;
                         }
                         // words: every ruled pair, with and without a third letter
                         let tab = parse_tab(&drv.ask(&format!("tab {}", join(&q.enc()))));
                         let mut words: Vec<Vec<i64>> = vec![];
                         let third: Vec<i64> = tab.pairs.iter().map(|(p, _)| p.1).take(3).collect();
-                        for ((l, r), _) in tab.pairs.iter().take(4000) {
+                        for ((l, r), _) in tab.pairs.iter().take(if self.thorough { 4000 } else { 1200 }) {
                             if *l >= 0 {
                                 words.push(vec![*l, *r]);
                                 for t in &third {
@@ -1529,7 +1878,7 @@ impl Property for C05 {
                                 }
                             }
                             ws.truncate(200);
-                            ws.extend(words.iter().take(400).cloned());
+                            ws.extend(words.iter().take(if self.thorough { 400 } else { 150 }).cloned());
                             let ws: Vec<&Vec<i64>> = ws.iter().filter(ok).collect();
                             let mut texts: Vec<String> = vec![];
                             for (i, chunk) in ws.chunks(25).enumerate() {
@@ -1556,205 +1905,6 @@ impl Property for C05 {
         }
     }
 
-    fn shrink(&self, case: &str) -> Vec<String> {
-        let (cmd, rest) = case.split_once(' ').unwrap_or((case, ""));
-        let mut c = vec![];
-        if cmd == "m" {
-            let parts: Vec<&str> = rest.split('|').map(str::trim).collect();
-            let nf: usize = parts[0].parse().unwrap_or(0);
-            let ops = &parts[1 + nf..];
-            // drop halves of the script, then single ops
-            let mk = |keep: &dyn Fn(usize) -> bool| {
-                let mut p: Vec<&str> = parts[..1 + nf].to_vec();
-                p.extend(ops.iter().enumerate().filter(|(i, _)| keep(*i)).map(|(_, o)| *o));
-                format!("m {}", p.join(" | "))
-            };
-            if ops.len() > 1 {
-                let h = ops.len() / 2;
-                c.push(mk(&|i| i < h));
-                c.push(mk(&|i| i >= h));
-                for k in 0..ops.len() {
-                    c.push(mk(&|i| i != k));
-                }
-            }
-            // shorten texts to single words
-            for (k, op) in ops.iter().enumerate() {
-                let v = parse_i64s(op);
-                if v.first() == Some(&2) {
-                    let text = &v[2..2 + v[1] as usize];
-                    let words: Vec<&[i64]> = text.split(|c| *c == 32).filter(|w| !w.is_empty()).collect();
-                    if words.len() > 1 {
-                        for w in words {
-                            let mut p: Vec<String> = parts.iter().map(|x| x.to_string()).collect();
-                            p[1 + nf + k] = format!("2 {} {}", w.len(), join(w));
-                            c.push(format!("m {}", p.join(" | ")));
-                        }
-                    }
-                }
-            }
-            return c;
-        }
-        if cmd == "o" {
-            let mut it = rest.splitn(3, ' ');
-            let (a, b, r) = (it.next().unwrap_or("0"), it.next().unwrap_or("-1"), it.next().unwrap_or(""));
-            return self
-                .shrink(&format!("p {r}"))
-                .into_iter()
-                .map(|x| format!("o {a} {b} {}", &x[2..]))
-                .collect();
-        }
-        if cmd == "t" {
-            let parts: Vec<&str> = rest.split('|').collect();
-            let prog = Prog::dec(&parse_i64s(parts[0]));
-            let tv = parse_i64s(parts[1]);
-            let text = tv[1..1 + tv[0] as usize].to_vec();
-            let mk = |p: &Prog, t: &[i64]| format!("t {} | {} {}", join(&p.enc()), t.len(), join(t));
-            let words: Vec<Vec<i64>> = text.split(|c| *c == 32).filter(|w| !w.is_empty()).map(|w| w.to_vec()).collect();
-            if words.len() > 1 {
-                for w in &words {
-                    c.push(mk(&prog, w));
-                }
-            }
-            for i in 0..text.len() {
-                let mut t = text.clone();
-                t.remove(i);
-                if !t.is_empty() {
-                    c.push(mk(&prog, &t));
-                }
-            }
-            for i in 0..prog.entries.len() {
-                let mut q = prog.clone();
-                q.entries.remove(i);
-                c.push(mk(&q, &text));
-            }
-            if prog.lb >= 0 {
-                let mut q = prog.clone();
-                q.lb = -1;
-                c.push(mk(&q, &text));
-            }
-            if prog.rb >= 0 {
-                let mut q = prog.clone();
-                q.rb = -1;
-                c.push(mk(&q, &text));
-            }
-            for i in 0..prog.instrs.len() {
-                if prog.instrs[i][1..] != [255, 0, 0, 0] {
-                    let mut q = prog.clone();
-                    q.instrs[i] = [q.instrs[i][0], 255, 0, 0, 0];
-                    c.push(mk(&q, &text));
-                }
-            }
-            return c;
-        }
-        if cmd != "p" && cmd != "k" && cmd != "n" {
-            return c;
-        }
-        let parts: Vec<&str> = rest.split('|').collect();
-        let prog = Prog::dec(&parse_i64s(parts[0]));
-        let ws = WordSet::dec(&parts[1..]);
-        let words = ws.words();
-        // one word at a time, then shorter words
-        if words.len() > 1 {
-            for w in &words {
-                c.push(case_of(cmd, &prog, &WordSet::List(vec![w.clone()])));
-            }
-        } else if let Some(w) = words.first() {
-            for i in 0..w.len() {
-                let mut x = w.clone();
-                x.remove(i);
-                if !x.is_empty() {
-                    c.push(case_of(cmd, &prog, &WordSet::List(vec![x])));
-                }
-            }
-        }
-        let ws1 = WordSet::List(words.clone());
-        // drop an entry point / the boundary entry / the boundary char
-        for i in 0..prog.entries.len() {
-            let mut q = prog.clone();
-            q.entries.remove(i);
-            c.push(case_of(cmd, &q, &ws1));
-        }
-        if prog.lb >= 0 {
-            let mut q = prog.clone();
-            q.lb = -1;
-            c.push(case_of(cmd, &q, &ws1));
-        }
-        if prog.rb >= 0 {
-            let mut q = prog.clone();
-            q.rb = -1;
-            c.push(case_of(cmd, &q, &ws1));
-        }
-        // neutralise an instruction (keeps indices stable), drop a trailing one
-        for i in 0..prog.instrs.len() {
-            if prog.instrs[i][1..] != [255, 0, 0, 0] {
-                let mut q = prog.clone();
-                q.instrs[i] = [q.instrs[i][0], 255, 0, 0, 0];
-                c.push(case_of(cmd, &q, &ws1));
-            }
-        }
-        if prog.instrs.len() > 1 {
-            let mut q = prog.clone();
-            q.instrs.pop();
-            c.push(case_of(cmd, &q, &ws1));
-        }
-        c
-    }
-}
-
-fn bucket(n: usize) -> &'static str {
-    match n {
-        0 => "0",
-        1..=99 => "1-99",
-        100..=999 => "100-999",
-        _ => "1000+",
-    }
-}
-
-impl C05 {
-    /// A corpus font the way the `f` stream loads it: real bytes, `File::deserialize`,
-    /// `compile_from_tfm_file`; the program as Lean sees it (entry points unpacked by the real
-    /// code, kerns scaled with the font's design size).
-    #[allow(clippy::type_complexity)]
-    fn load_font_file(&self, rel: &str, out: &mut CaseOutcome) -> Option<(tfm::File, CompiledProgram, Vec<tfm::ligkern::InfiniteLoopError>, Prog)> {
-        let path = format!("{}/{}", self.repo(), rel);
-        let bytes = std::fs::read(&path).unwrap_or_else(|e| panic!("cannot read {path}: {e}"));
-        let r = caught(|| {
-            let (f, _) = tfm::File::deserialize(&bytes);
-            f.ok().map(|mut f| {
-                let (cp, errs) = CompiledProgram::compile_from_tfm_file(&mut f);
-                (f, cp, errs)
-            })
-        });
-        match r {
-            Err(p) => {
-                out.fail(Kind::ImplPanic, "font", format!("panic {}", strip_msg(&p)), format!("{rel}: {p}"));
-                None
-            }
-            Ok(None) => {
-                out.tag("font:does-not-deserialize");
-                None
-            }
-            Ok(Some((mut f, cp, errs))) => {
-                let entries: HashMap<Char, u16> = f
-                    .lig_kern_entrypoints()
-                    .into_iter()
-                    .filter_map(|(c, e)| f.lig_kern_program.unpack_entrypoint(e).ok().map(|e| (c, e)))
-                    .collect();
-                let mut q = Prog::from_real(&f.lig_kern_program, &entries, &f.kerns);
-                let ds = f.header.design_size;
-                let ok = caught(|| {
-                    for k in q.kerns.iter_mut() {
-                        *k = FixWord(*k as i32).to_scaled(ds).0 as i64;
-                    }
-                });
-                if ok.is_err() {
-                    out.tag("skipped:to_scaled-panic(C17)");
-                    return None;
-                }
-                Some((f, cp, errs, q))
-            }
-        }
-    }
 
     fn repo(&self) -> String {
         self.repo.clone()
@@ -1779,5 +1929,5 @@ fn main() {
         }
     }
     fonts.sort();
-    run(C05 { fonts, repo });
+    run(C05 { fonts, repo, tab_cache: None, time_by_stream: Default::default(), thorough: false });
 }
